@@ -1,10 +1,13 @@
 #!/bin/sh
-# applies every selftest/benign/*.diff to a scratch copy of /repo and runs all quick checks against it: all must exit 0
+# usage: selftest/benign.sh [diff ...]   (default: every selftest/benign/*.diff)
+# applies each diff to a scratch copy of /repo and runs all quick checks against it: all must exit 0
 set -e
 V=$(cd "$(dirname "$0")/.." && pwd)
 export GOFLAGS=-mod=mod GOPROXY=off GOSUMDB=off GOTOOLCHAIN=local
 rc=0
-for d in "$V"/selftest/benign/*.diff; do
+LIST="$*"
+[ -n "$LIST" ] || LIST=$(ls "$V"/selftest/benign/*.diff)
+for d in $LIST; do
   S=/tmp/vbenign/$(basename "$d" .diff)
   rm -rf "$S" "$S-out"; mkdir -p "$S"
   git -C /repo archive HEAD | tar -x -C "$S"
